@@ -18,6 +18,9 @@ pub enum Kinds {
     NN,
     NC,
     CC,
+    /// two token-factory style native denoms from different creators with the SAME subdenom
+    /// (factory/creatora/uabc, factory/creatorb/uabc): identifiers derived from a suffix collide
+    FF,
 }
 
 #[derive(Clone, Debug)]
@@ -80,6 +83,8 @@ pub enum Act {
     /// a deposit whose message mislabels the kind of an asset (a native denom presented as a cw20 contract address,
     /// with no funds attached for it)
     BadProvide { user: String, kind: String },
+    /// a swap declaring more of a native offer asset than is attached
+    BadSwap { user: String, dir: u8 },
     Swap { user: String, dir: u8, amount: u128, loose: bool },
     Collect { user: String },
     /// through fee_collector::CollectFees{Contracts}
@@ -140,14 +145,18 @@ impl PairScn {
     }
 
     pub fn deploy(&self, r: &PairRoot, w: &mut World) -> H {
-        let hub = deploy_pool_hub(w, &[(DN0, r.decimals[0]), (DN1, r.decimals[1])]);
+        const FD0: &str = "factory/creatora/uabc";
+        const FD1: &str = "factory/creatorb/uabc";
+        let hub = if r.kinds == Kinds::FF { deploy_pool_hub(w, &[(FD0, r.decimals[0]), (FD1, r.decimals[1])]) } else { deploy_pool_hub(w, &[(DN0, r.decimals[0]), (DN1, r.decimals[1])]) };
         let a0 = match r.kinds {
             Kinds::NN | Kinds::NC => native(DN0),
             Kinds::CC => token(&w.new_cw20("taa", r.decimals[0], &[], OWNER)),
+            Kinds::FF => native(FD0),
         };
         let a1 = match r.kinds {
             Kinds::NN => native(DN1),
             Kinds::NC | Kinds::CC => token(&w.new_cw20("tbb", r.decimals[1], &[], OWNER)),
+            Kinds::FF => native(FD1),
         };
         for u in USERS.iter().chain([MALLORY].iter()) {
             fund(w, &a0, u, BIG_FUND);
@@ -327,6 +336,12 @@ impl Scenario for PairScn {
             }
             if h.pair.assets.iter().any(|a| matches!(a, AssetInfo::NativeToken { .. })) {
                 v.push(Act::BadProvide { user: MALLORY.to_string(), kind: "native_labelled_as_token".to_string() });
+                v.push(Act::BadProvide { user: MALLORY.to_string(), kind: "underfunded_native".to_string() });
+                for dir in 0..2u8 {
+                    if matches!(h.pair.assets[dir as usize], AssetInfo::NativeToken { .. }) {
+                        v.push(Act::BadSwap { user: MALLORY.to_string(), dir });
+                    }
+                }
             }
         }
         v.push(Act::Collect { user: MALLORY.to_string() });
@@ -423,13 +438,41 @@ impl Scenario for PairScn {
                     }
                 }
             }
-            Act::BadProvide { user, kind: _ } => {
+            Act::BadSwap { user, dir } => {
+                // a swap whose message declares a tenth of the reserve of a native asset while one unit is attached
+                let (res, _) = pre.unwrap();
+                let offer = &p.assets[*dir as usize];
+                let ask = &p.assets[1 - *dir as usize];
+                let declared = (res[*dir as usize] / 10).max(2);
+                let ub = [info_balance(w, offer, user), info_balance(w, ask, user)];
+                let r = match offer {
+                    AssetInfo::NativeToken { denom } => w.exec(
+                        user,
+                        &p.addr,
+                        &white_whale_std::pool_network::pair::ExecuteMsg::Swap { offer_asset: asset(offer, declared), belief_price: loose_belief(), max_spread: Some(cosmwasm_std::Decimal::percent(50)), to: None },
+                        &[cosmwasm_std::coin(1, denom)],
+                    ),
+                    _ => return,
+                };
+                match &r {
+                    Ok(_) => {
+                        cx.count("bad_swap:accepted");
+                        let ua = [info_balance(w, offer, user), info_balance(w, ask, user)];
+                        cx.check("swap.user_deltas", ub[0] - ua[0] == declared, || {
+                            format!("swap declaring an offer of {} with 1 unit attached was accepted: the user paid {} and received {}", declared, ub[0] - ua[0], ua[1] - ub[1])
+                        });
+                    }
+                    Err(_) => cx.count("bad_swap:rejected"),
+                }
+            }
+            Act::BadProvide { user, kind } => {
                 let (res, supply) = pre.unwrap();
-                let d = [(res[0] / 10).max(1), (res[1] / 10).max(1)];
+                let d = [(res[0] / 10).max(2), (res[1] / 10).max(2)];
+                let underfunded = kind == "underfunded_native";
                 let mut assets = vec![];
                 for i in 0..2 {
                     let info = match &p.assets[i] {
-                        AssetInfo::NativeToken { denom } => AssetInfo::Token { contract_addr: denom.clone() },
+                        AssetInfo::NativeToken { denom } if !underfunded => AssetInfo::Token { contract_addr: denom.clone() },
                         other => other.clone(),
                     };
                     if let AssetInfo::Token { contract_addr } = &p.assets[i] {
@@ -439,14 +482,24 @@ impl Scenario for PairScn {
                 }
                 let ub = [info_balance(w, &p.assets[0], user), info_balance(w, &p.assets[1], user)];
                 let lpb = w.cw20_balance(&p.lp, user);
-                let r = w.exec(user, &p.addr, &white_whale_std::pool_network::pair::ExecuteMsg::ProvideLiquidity { assets: [assets[0].clone(), assets[1].clone()], slippage_tolerance: None, receiver: None }, &[]);
+                // (underfunded: every native asset is declared in full but only one unit of it is attached)
+                let mut funds: Vec<cosmwasm_std::Coin> = vec![];
+                if underfunded {
+                    for a in p.assets.iter() {
+                        if let AssetInfo::NativeToken { denom } = a {
+                            funds.push(cosmwasm_std::coin(1, denom));
+                        }
+                    }
+                    funds.sort_by(|a, b| a.denom.cmp(&b.denom));
+                }
+                let r = w.exec(user, &p.addr, &white_whale_std::pool_network::pair::ExecuteMsg::ProvideLiquidity { assets: [assets[0].clone(), assets[1].clone()], slippage_tolerance: None, receiver: None }, &funds);
                 let ua = [info_balance(w, &p.assets[0], user), info_balance(w, &p.assets[1], user)];
                 let minted = w.cw20_balance(&p.lp, user) - lpb;
                 match &r {
                     Ok(_) => {
                         cx.count("bad_provide:accepted");
                         cx.check("provide.user_paid_exactly", ub[0] - ua[0] == d[0] && ub[1] - ua[1] == d[1], || {
-                            format!("deposit {:?} with the native asset labelled as a cw20 token and no funds attached was accepted: user balance moved {:?}->{:?}, minted {} of supply {}", d, ub, ua, minted, supply)
+                            format!("deposit {:?} sent as '{}' was accepted: user balance moved {:?}->{:?}, minted {} of supply {}", d, kind, ub, ua, minted, supply)
                         });
                     }
                     Err(_) => {
